@@ -224,6 +224,9 @@ class TFLiteSupportedOperators:
         # Setup specific constraints. Note: the order matters
         self.specific_constraints = defaultdict(list)
 
+        # Pack specific checks:
+        self.specific_constraints[Op.Pack].append(TFLiteSupportedOperators.constraint_pack_ofm_batch)
+
         # Conv specific ops:
         for op_type in TFLiteSupportedOperators.convolution_ops:
             self.specific_constraints[op_type].append(TFLiteSupportedOperators.constraint_stride_width_no_upper_limit)
@@ -532,6 +535,13 @@ class TFLiteSupportedOperators:
             valid = all(-(1 << 39) <= int(value) < (1 << 39) for value in bias.values)
             return valid, f"Tensor '{bias.name}' has values larger than 40-bits"
         return True, "Op has no bias tensor, or it fits in 40-bit"
+
+    @staticmethod
+    def constraint_pack_ofm_batch(op):
+        "OFM Tensor batch size must be 1"
+        batch_size = full_shape(4, op.ofm.shape, 1)[0]
+        valid = batch_size == 1
+        return valid, f"Tensor '{op.ofm.name}' has batch size: {batch_size}"
 
     @staticmethod
     def constraint_batch_size(op):
